@@ -10,7 +10,7 @@ import (
 // The client's read loop reuses one buffer for every packet: a payload queued for the application
 // must not change when the next packet is read into that buffer.
 //
-//verif:props=C05,C13 bounds="two inbound packets through the same 16-byte read buffer: ChannelData (4-byte payload) on a bound channel, then ChannelData or a Data-indication-sized overwrite; payload bytes symbolic"
+//verif:props=C05,C13,C14 bounds="two inbound packets through the same 16-byte read buffer: ChannelData (4-byte payload) on a channel whose bind is confirmed or still pending, then ChannelData or a Data-indication-sized overwrite; payload bytes symbolic"
 func VerifHarness_C05_client_queue_keeps_payload() {
 	conn := &allocation.VPacketConn{Name: "client"}
 	c := vNewClient(conn, 200*time.Millisecond)
@@ -19,12 +19,20 @@ func VerifHarness_C05_client_queue_keeps_payload() {
 		Lifetime: 600 * time.Second, Log: &allocation.VLogger{}})
 	c.setRelayedUDPConn(uc)
 	peer := allocation.VUDPAddr4()
-	num := client.VBind(uc, peer)
+	var num uint16
+	if vBool() {
+		num = client.VBind(uc, peer)
+	} else {
+		// the server relays on a channel from the moment it accepted the bind - possibly before the client has
+		// seen the ChannelBind success (response delayed or lost): such data is delivered, not an error
+		num = client.VBindPending(uc, peer)
+	}
 	buf := make([]byte, 16) // the buffer Client.Listen reads every packet into
 	p1, p2 := vBytesN(4), vBytesN(4)
 	copy(buf, []byte{byte(num >> 8), byte(num), 0, 4, p1[0], p1[1], p1[2], p1[3]})
 	h1, e1 := c.HandleInbound(buf[:8], server)
 	vAssert(vAnd(h1, e1 == nil), "C13.channeldata_on_a_bound_channel_is_handled")
+	vAssert(vAnd(h1, e1 == nil), "C14.inbound_data_keeps_flowing_while_a_bind_is_unconfirmed")
 	copy(buf, []byte{byte(num >> 8), byte(num), 0, 4, p2[0], p2[1], p2[2], p2[3]})
 	h2, e2 := c.HandleInbound(buf[:8], server)
 	vAssert(vAnd(h2, e2 == nil), "C13.second_channeldata_is_handled")
